@@ -1045,6 +1045,81 @@ def convT_family(which):
   return _prove(cases, t0)
 
 
+class _EvalShape:
+  """jax.eval_shape for ConvLocal's kernel-shape computation: run the function on
+  symbolic stand-ins of the abstract arguments, keep the shape"""
+
+  def __call__(self, f, *args):
+    conc = []
+    for a_ in args:
+      if isinstance(a_, A):
+        conc.append(a_)
+      else:
+        conc.append(A.sym('abs', tuple(a_.shape)))
+    out = A.of(f(*conc))
+
+    class R_:
+      shape = tuple(out.shape)
+    return R_
+
+
+def convlocal_family(which):
+  """ConvLocal: one kernel per output position: y[n,o,f] = sum_{c,w} x[n, o*s +
+  w*kd - lo, c] * K[o, c*K + w, f] + bias[o, f]"""
+  t0 = time.time()
+  cases = []
+  pad = ['VALID', 'SAME', (1, 1)][which]
+  with SymEnv():
+    saved_es, saved_sa = LL.eval_shape, LL.ShapedArray
+    if not sym.CONCRETE['on']:
+      LL.eval_shape = _EvalShape()
+      LL.ShapedArray = lambda shape, dtype=None: A.sym('abs', tuple(shape))
+    try:
+      for K, stride, kdil, use_bias in [(1, 1, 1, True), (2, 1, 1, True),
+                                        (3, 1, 1, False), (2, 2, 1, True),
+                                        (2, 1, 2, True), (3, 2, 1, True)]:
+        C, F, Lx = 2, 2, 4
+        keff = (K - 1) * kdil + 1
+        if pad == 'VALID':
+          lo = hi = 0
+        elif pad == 'SAME':
+          out = -(-Lx // stride)
+          tot = max((out - 1) * stride + keff - Lx, 0)
+          lo, hi = tot // 2, tot - tot // 2
+        else:
+          lo, hi = pad
+        Lo = (Lx + lo + hi - keff) // stride + 1
+        if Lo < 1:
+          continue
+        x = A.sym('x', (1, Lx, C))
+        k = A.sym('k', (Lo, K * C, F))
+        b = A.sym('b', (Lo, F))
+        p = {'kernel': k}
+        if use_bias:
+          p['bias'] = b
+        lay = nn.ConvLocal(F, (K,), strides=(stride,), kernel_dilation=(kdil,),
+                           padding=pad if isinstance(pad, str) else [pad],
+                           use_bias=use_bias)
+        got = lay.apply({'params': p}, x)
+        want = []
+        for o in range(Lo):
+          for f in range(F):
+            acc = S(0)
+            for c in range(C):
+              for w in range(K):
+                pos = o * stride + w * kdil - lo
+                if 0 <= pos < Lx:
+                  acc = acc + x.at((0, pos, c)) * k.at((o, c * K + w, f))
+            if use_bias:
+              acc = acc + b.at((o, f))
+            want.append(acc)
+        cases.append(('ConvLocal K=%d s=%d kd=%d bias=%s pad=%r' % (
+            K, stride, kdil, use_bias, pad), got, A(want, (1, Lo, F))))
+    finally:
+      LL.eval_shape, LL.ShapedArray = saved_es, saved_sa
+  return _prove(cases, t0)
+
+
 def conv2d_family(which):
   """2-D convolution (stride (1,2), SAME / VALID / CIRCULAR), Linen and NNX"""
   t0 = time.time()
@@ -1165,7 +1240,7 @@ ASSUMPTIONS = (
     'the shim itself (vf/symnp.py) is trusted after its per-run validation against '
     'real jax on random concrete inputs',
     'shapes / configurations beyond the instantiated grid, ConvTranspose, '
-    'ConvLocal, fp8 are NOT covered',
+    'fp8 layers are NOT covered',
     'jax.core.get_opaque_trace_state compat shim installed by the harness process',
 )
 
@@ -1228,6 +1303,12 @@ def obligations(tier):
                   bounds='1-D, L=3, C<=2, F=1, (K, stride, kernel_dilation) in %r, '
                          'plain and transposed kernel, bias, mask, 0..2 batch dims'
                          % (CONVT_GRID,)))
+  for w, nm in enumerate(['VALID', 'SAME', 'explicit']):
+    obs.append(Ob('formula_conv_local_' + nm, _fam('convlocal_family'),
+                  dict(which=I(w, w)), kind='smt', replay=replay_family,
+                  split=('which',), timeout=900, funcs=F4,
+                  bounds='1-D, L=4, C=F=2, K in 1..3, stride 1..2, kernel dilation '
+                         '1..2, per-position bias'))
   obs.append(Ob('control_wrong_formula_is_refuted', control_wrong_formula,
                 dict(which=I(0, 0)), kind='smt', split=('which',), timeout=300,
                 expect='refute', replay=replay_control))
